@@ -18,8 +18,8 @@ package main
 // number is never given two names nor a name two numbers within one scope (what an inconsistent call should do is
 // not the library's promise - the one "renaming" sequence at the end is judged on write -> read only). Calls:
 //   - every one of the library's enumerations, through its own Go type: a vendor value; an existing pair registered
-//     again together with a new value whose NAME every other enumeration also receives, with another number; an
-//     empty map; a nil map; the whole current table registered again plus 0xFFFFFFFF;
+//     again together with a new value whose NAME every other enumeration also receives, with another number; more
+//     new pairs than the table holds; an empty map; a nil map; the whole current table registered again plus 0xFFFFFFFF;
 //   - enumerations of the harness on fresh extension tags: in several instalments, value 0 and the top bit, a name
 //     another enumeration owns, type first and values later, RegisterEnum before / without RegisterTag;
 //   - both of the library's masks and masks of the harness: the same list again, the list extended (twice);
@@ -135,17 +135,17 @@ func rtMaskUnmarshal[T ~int32](dst *T, tag int, text string) error {
 	return nil
 }
 
-func (v rtEnumA) MarshalText() ([]byte, error) { return rtEnumMarshal(v) }
+func (v rtEnumA) MarshalText() ([]byte, error)  { return rtEnumMarshal(v) }
 func (v *rtEnumA) UnmarshalText(b []byte) error { return rtEnumUnmarshal(v, rtTagEnumA, string(b)) }
-func (v rtEnumB) MarshalText() ([]byte, error) { return rtEnumMarshal(v) }
+func (v rtEnumB) MarshalText() ([]byte, error)  { return rtEnumMarshal(v) }
 func (v *rtEnumB) UnmarshalText(b []byte) error { return rtEnumUnmarshal(v, rtTagEnumB, string(b)) }
-func (v rtEnumC) MarshalText() ([]byte, error) { return rtEnumMarshal(v) }
+func (v rtEnumC) MarshalText() ([]byte, error)  { return rtEnumMarshal(v) }
 func (v *rtEnumC) UnmarshalText(b []byte) error { return rtEnumUnmarshal(v, rtTagEnumC, string(b)) }
-func (v rtEnumR) MarshalText() ([]byte, error) { return rtEnumMarshal(v) }
+func (v rtEnumR) MarshalText() ([]byte, error)  { return rtEnumMarshal(v) }
 func (v *rtEnumR) UnmarshalText(b []byte) error { return rtEnumUnmarshal(v, rtTagEnumR, string(b)) }
-func (v rtMaskA) MarshalText() ([]byte, error) { return []byte(ttlv.BitmaskStr(v, " | ")), nil }
+func (v rtMaskA) MarshalText() ([]byte, error)  { return []byte(ttlv.BitmaskStr(v, " | ")), nil }
 func (v *rtMaskA) UnmarshalText(b []byte) error { return rtMaskUnmarshal(v, rtTagMaskA, string(b)) }
-func (v rtMaskB) MarshalText() ([]byte, error) { return []byte(ttlv.BitmaskStr(v, " | ")), nil }
+func (v rtMaskB) MarshalText() ([]byte, error)  { return []byte(ttlv.BitmaskStr(v, " | ")), nil }
 func (v *rtMaskB) UnmarshalText(b []byte) error { return rtMaskUnmarshal(v, rtTagMaskB, string(b)) }
 
 // rtEnumReg: ttlv.RegisterEnum instantiated for one Go type (generic functions cannot be reached by reflection).
@@ -272,7 +272,7 @@ func diffMap[K comparable, V comparable](want, got map[K]V, show func(K, V) stri
 	return fmt.Sprintf("%d entries expected, %d present:%s%s%s", len(want), len(got), part("missing", missing), part("unexpected", extra), part("changed", other))
 }
 
-func showNum(v uint32, n string) string { return fmt.Sprintf("(0x%X, %q)", v, n) }
+func showNum(v uint32, n string) string  { return fmt.Sprintf("(0x%X, %q)", v, n) }
 func showName(n string, v uint32) string { return fmt.Sprintf("(%q, 0x%X)", n, v) }
 
 // compareTables: the dump equals the reference - every table, forward and reverse separately.
@@ -772,10 +772,18 @@ func regRtChildMain() {
 			again[ks[0]] = w.enums[tag][ks[0]]
 		}
 		x.enumStep("enum-again-and-add", r, tag, again, false)
-		// 3. nothing to add
+		// 3. a call bringing MORE new pairs than the table holds (none of the present ones among them)
+		many := map[uint32]string{}
+		for k, from := 0, uint32(0x80001000); k <= len(w.enums[tag]); k++ {
+			from = free(from)
+			many[from] = fmt.Sprintf("VerifMany_%d", k)
+			from++
+		}
+		x.enumStep("enum-add-many", r, tag, many, false)
+		// 4. nothing to add
 		x.enumStep("enum-empty", r, tag, map[uint32]string{}, false)
 		x.enumStep("enum-nil", r, tag, nil, true)
-		// 4. the whole table again, one more value in the first unused standard number and the last number
+		// 5. the whole table again, one more value in the first unused standard number and the last number
 		all := map[uint32]string{}
 		for v, n := range w.enums[tag] {
 			all[v] = n
@@ -811,6 +819,8 @@ func regRtChildMain() {
 	x.enumStep("ext-enum-first", ec, rtTagEnumC, map[uint32]string{1: "Alpha"}, false)
 	x.enumStep("ext-enum-add", ec, rtTagEnumC, map[uint32]string{2: "Beta"}, false)
 	x.enumStep("ext-enum-add", ec, rtTagEnumC, map[uint32]string{3: "Gamma", 1: "Alpha"}, false)
+	x.enumStep("ext-enum-add-many", ec, rtTagEnumC, map[uint32]string{4: "Delta", 5: "Epsilon", 6: "Zeta", 7: "Eta", 8: "Theta"}, false)
+	x.enumStep("ext-enum-add", ec, rtTagEnumC, map[uint32]string{9: "Iota"}, false)
 	x.checkpoint("extension-enumerations")
 
 	// ---- masks ----
@@ -862,7 +872,7 @@ func regRtChildMain() {
 	// ---- a number given a second name (not a consistent call: judged on write -> read only) ----
 	x.rename()
 
-	for _, k := range []string{"rt.step.enum-add", "rt.step.enum-again-and-add", "rt.step.enum-whole-table-and-add", "rt.step.ext-enum-add", "rt.step.mask-extend", "rt.step.ext-mask-extend", "rt.step.tag-again", "rt.step.tag-library-again", "rt.enum.entry", "rt.enum.name", "rt.mask.flag", "rt.tag"} {
+	for _, k := range []string{"rt.step.enum-add", "rt.step.enum-again-and-add", "rt.step.enum-add-many", "rt.step.enum-whole-table-and-add", "rt.step.ext-enum-add", "rt.step.mask-extend", "rt.step.ext-mask-extend", "rt.step.tag-again", "rt.step.tag-library-again", "rt.enum.entry", "rt.enum.name", "rt.mask.flag", "rt.tag"} {
 		if res.Distribution[k] == 0 {
 			res.Fail("registry run-time registrations: nothing happened for " + k)
 		}
